@@ -510,6 +510,15 @@ def corpus():
                                    'facade/src/lib.rs': 'pub use core_types::Money;\n#[typeshare]\npub struct F1 { pub x: u8 }\n',
                                    'app/src/lib.rs': 'use facade::Money;\n#[typeshare]\npub struct Order { pub m: Money }\n'})
     mk('generic-param-not-a-reference', {'a/src/lib.rs': '#[typeshare]\npub struct U { pub x: u8 }\n', 'b/src/lib.rs': 'use a::U;\n#[typeshare]\npub struct B1<U> { pub f: U }\n'})
+    # a generic parameter of ONE item called like an imported type that ANOTHER item of the same file really uses (seeded C14_h:
+    # the generic names of all items of a file subtracted from every item's references - the import of Payload is lost)
+    mk('generic-param-named-like-import', {'a/src/lib.rs': '#[typeshare]\npub struct Payload { pub x: u8 }\n#[typeshare]\n#[serde(rename = "StatusRenamed")]\npub enum Status { On, Off }\n',
+                                           'b/src/lib.rs': 'use a::{Payload, Status};\n#[typeshare]\npub struct Envelope<Payload, Status> { pub p: Payload, pub s: Vec<Status> }\n'
+                                                           '#[typeshare]\npub struct Request { pub payload: Payload, pub st: Option<Status> }\n'})
+    # a type of another crate referenced ONLY as a HashMap key or as a non-last generic argument (seeded C09_h: the iterator
+    # over a type's referenced names drops pending sibling arguments, the import and with it the rename of the reference are lost)
+    mk('only-non-last-argument', {'a/src/lib.rs': A + '#[typeshare]\n#[serde(rename = "KeyRenamed")]\npub struct K1(String);\n#[typeshare]\npub struct Paged<T, U> { pub t: T, pub u: U }\n',
+                                  'b/src/lib.rs': 'use a::{A1, A2, A3, K1, Paged};\nuse std::collections::HashMap;\n#[typeshare]\npub struct B1 { pub m: HashMap<K1, u8>, pub p: Paged<A2, u8>, pub q: Paged<A1, Paged<A3, String>> }\n'})
     return out
 
 
